@@ -99,7 +99,7 @@ def gen_case(rng, tier):
                     row[c] = "_"
                 elif m and rng.random() < 0.3:
                     row[c] = "N"
-    pk = rng.choice(["autoinc", "autoinc", "autoinc", "callable", "sqlexpr", "supplied"])
+    pk = rng.choice(["autoinc", "autoinc", "autoinc", "callable", "sqlexpr", "supplied", "autoinc_supplied"])
     if form == "insertMV" and pk == "sqlexpr":
         pk = "autoinc"
     implicit_returning = rng.random() < 0.85
@@ -185,7 +185,7 @@ def build(case):
 
     cols = []
     pkk = case["pk"]
-    if pkk == "autoinc":
+    if pkk in ("autoinc", "autoinc_supplied"):
         cols.append(Column("id", Integer, primary_key=True))
     elif pkk == "callable":
 
@@ -247,7 +247,7 @@ def run_case(case):
     params = []
     for i, r in enumerate(rows):
         p = {names[c]: cell_val(r[c]) for c in range(ncols) if r[c] != "_"}
-        if case["pk"] == "supplied" and not form.startswith("update"):
+        if case["pk"] in ("supplied", "autoinc_supplied") and not form.startswith("update"):
             p["id"] = 10 + 3 * i
         params.append(p)
     obs["params"] = params
@@ -301,6 +301,41 @@ def run_case(case):
                 if r is not None:
                     comp = r.context.compiled
                     res_info["sql"] = str(comp)
+                    if comp.isinsert and form != "insertMV":
+                        pkc = t.c.id
+                        m_ = re.search(r"INSERT INTO t \((.*?)\) VALUES \((.*)\)", str(comp), re.S)
+                        cols_ = [x.strip() for x in m_.group(1).split(",")] if m_ else []
+                        vals_ = [x.strip() for x in _split_top(_strip_returning(m_.group(2)))] if m_ else []
+                        pkval = dict(zip(cols_, vals_)).get("id")
+                        if pkval in ("NULL", "DEFAULT") and len(cols_) == 1:
+                            pkval = None  # "INSERT DEFAULT VALUES" rewritten as (firstcol) VALUES (DEFAULT)
+                        res_info["pkplan"] = "".join(
+                            "1" if b else "0"
+                            for b in (
+                                pkval is not None,
+                                pkval is not None and "id" in params[0],
+                                any(c_ is pkc for c_ in comp.insert_prefetch),
+                                pkval is not None and pkval != "?",
+                                any(c_ is pkc for c_ in comp.implicit_returning),
+                                bool(comp.postfetch_lastrowid),
+                            )
+                        )
+                        d_ = comp.dialect
+                        res_info["pkctx"] = "".join(
+                            "1" if b else "0"
+                            for b in (
+                                d_.insert_returning,
+                                d_.postfetch_lastrowid,
+                                d_.favor_returning_over_lastrowid,
+                                d_.insert_executemany_returning,
+                                d_.insert_null_pk_still_autoincrements,
+                                t.implicit_returning,
+                                bool(comp.compile_state.statement._inline),
+                                bool(comp.compile_state.statement._return_defaults),
+                                bool(comp.compile_state.statement._returning),
+                                bool(comp.for_executemany),
+                            )
+                        )
                     res_info["prefetch"] = [getattr(c_, "name", None) or c_.key for c_ in (comp.insert_prefetch or comp.update_prefetch or [])]
                     if form in ("insert1", "insert1v", "insert1rd"):
                         res_info["ipk"] = tuple(r.inserted_primary_key) if r.inserted_primary_key is not None else None
@@ -483,7 +518,7 @@ def oracle(obs):
     if not is_update:
         if len(set(ids)) != n or any(i is None for i in ids):
             return ("c13-pk-not-generated", "ids %s" % ids)
-        if case["pk"] == "supplied" and ids != [p["id"] for p in params]:
+        if case["pk"] in ("supplied", "autoinc_supplied") and ids != [p["id"] for p in params]:
             return ("c13-pk-supplied-overridden", "ids %s params %s" % (ids, [p["id"] for p in params]))
     if "ipk" in info and info["ipk"] != (ids[0],):
         return ("c13-inserted-primary-key", "inserted_primary_key %s, stored id %s" % (info["ipk"], ids[0]))
@@ -667,6 +702,10 @@ def corr_lines(obs):
         return out
     else:
         out.append(("insert", impl, "defaults insert %s %s" % (kinds, ps)))
+    if obs["info"].get("pkplan") and obs["exc"] is None:
+        kindname = {"autoinc": "autoinc", "autoinc_supplied": "autoinc", "callable": "pydefault", "sqlexpr": "sqlexpr", "supplied": "plain"}[case["pk"]]
+        sup = ("2" if form == "insert1v" else "1") if case["pk"] in ("supplied", "autoinc_supplied") else "0"
+        out.append(("pk-plan", "ok " + obs["info"]["pkplan"], "defaults pk %s %s %s" % (kindname, sup, obs["info"]["pkctx"])))
     d = disp_of_sql(obs)
     if d is not None and obs["exc"] is None:
         out.append(("disposition", "ok " + d, "defaults disp %s %s" % (kinds, ps)))
